@@ -12,6 +12,7 @@ pub mod mt;
 pub mod conv_gen;
 pub mod safe_gen;
 pub mod safety;
+pub mod chain_gen;
 pub mod swz_gen;
 
 use serde_json::{json, Value};
